@@ -51,7 +51,12 @@ fn flatten_fn_update(network: &mut BooleanNetwork, update: &FnUpdate) -> FnUpdat
         FnUpdate::Not(update) => flatten_fn_update(network, update).negation(),
         FnUpdate::Param(id, args) => {
             let name = network.get_parameter(*id).get_name().clone();
-            explode_function(network, args, format!("{name}_"))
+            // arguments can contain uninterpreted functions themselves (e.g. `f(f(a))`)
+            let args = args
+                .iter()
+                .map(|arg| flatten_fn_update(network, arg))
+                .collect::<Vec<_>>();
+            explode_function(network, &args, format!("{name}_"))
         }
         FnUpdate::Binary(op, left, right) => FnUpdate::Binary(
             *op,
